@@ -106,7 +106,17 @@ def check_cfg(F, R, cfg):
 
     # ------------------------------------------------------------------ PrimeField / Field for Scalar
     delegates("C17.from_repr", SC, r"ff::PrimeField$", "from_repr", r"Scalar::from_canonical_bytes$", [1], "from_repr = from_canonical_bytes")
-    delegates("C17.to_repr", SC, r"ff::PrimeField$", "to_repr", r"Scalar::to_bytes$", [1], "to_repr = to_bytes")
+    f_tr = method(SC, r"ff::PrimeField$", "to_repr")
+    if f_tr:
+        fv_ = view(F, f_tr)
+        a_sc = F.adts.get(SC)
+        bi_ = [i for i, fl in enumerate(a_sc["variants"][0]["fields"]) if fl["name"] == "bytes"] if a_sc else []
+        e_tr = ex.strip(expr_of(fv_, ["m", [0, []]], 6))
+        direct = bool(bi_) and isinstance(e_tr, tuple) and e_tr[:2] == ("arg", 1) and e_tr[2] in (".%d" % bi_[0], "*.%d" % bi_[0])
+        if direct:
+            R.ok("C17.to_repr", I("<Scalar as PrimeField>::to_repr"), "to_repr = self.bytes (what to_bytes returns)")
+        else:
+            delegates("C17.to_repr", SC, r"ff::PrimeField$", "to_repr", r"Scalar::to_bytes$", [1], "to_repr = to_bytes")
     delegates("C17.sqrt_ratio", SC, r"ff::Field$", "sqrt_ratio", r"ff::helpers::sqrt_ratio_generic", [1, 2], "sqrt_ratio = ff::helpers::sqrt_ratio_generic(num, div)")
     delegates("C17.square", SC, r"ff::Field$", "square", r"ops::Mul.*::mul$", [1, 1], "square = self * self")
     delegates("C17.double", SC, r"ff::Field$", "double", r"ops::Add.*::add$", [1, 1], "double = self + self")
@@ -172,6 +182,26 @@ def check_cfg(F, R, cfg):
             t = news[0][1]
             imps = ex.implications(expr_of(fv, t["args"][1]), True)
             iz = [a for a, v in imps if v is False and ex.is_call(a, r"Scalar::is_zero$|::is_zero$") and ex.is_arg(ex.call_args(a)[0], 1)]
+            if not iz:
+                # the same test spelled out: !self.ct_eq(&Scalar::ZERO) (either operand order)
+                def zero_const(x):
+                    x = ex.strip(x)
+                    while isinstance(x, tuple) and x[0] in ("proj", "ref", "deref") and len(x) > 1 and isinstance(x[1], tuple):
+                        x = ex.strip(x[1])
+                    if not (isinstance(x, tuple) and x[0] == "const"):
+                        return False
+                    if str(x[3] or "").endswith("Scalar::ZERO"):
+                        return True
+                    v_ = x[1]
+                    while isinstance(v_, dict) and "ref" in v_:
+                        v_ = v_["ref"]
+                    b_ = v_.get("f", {}).get("bytes") if isinstance(v_, dict) and str(v_.get("adt", "")).endswith("scalar::Scalar") else None
+                    return isinstance(b_, list) and len(b_) == 32 and all(z == 0 for z in b_)
+                for a, v in imps:
+                    if v is False and ex.is_call(a, r"Scalar as subtle::ConstantTimeEq>::ct_eq$"):
+                        p0, p1 = ex.call_args(a)
+                        if (ex.is_arg(p0, 1) and zero_const(p1)) or (ex.is_arg(p1, 1) and zero_const(p0)):
+                            iz.append(a)
             inv = rc(fv, t["args"][0], r"Scalar::invert$")
             good = bool(iz) and inv is not None and root(fv, inv["args"][0])[:2] == ("arg", 1)
         (R.ok if good else R.viol)("C17.invert", I("Field::invert"), "CtOption::new(self.invert(), !self.is_zero())" if good else "Field::invert is not None exactly for zero", *(() if good else (fv.loc(),)))
@@ -232,6 +262,10 @@ def check_cfg(F, R, cfg):
     if f:
         fv = view(F, f)
         good = any(s["kind"] == "call" and re.search(r"CompressedEdwardsY::to_bytes$", cname(s["term"])) and rc(fv, s["term"]["args"][0], r"EdwardsPoint::compress$") is not None for s in fv.exit_sites())
+        if not good:
+            # `let CompressedEdwardsY(bytes) = self.compress(); bytes`: field 0 of the compressed point
+            e_ = ex.strip(expr_of(fv, ["m", [0, []]], 8), through_calls=False)
+            good = isinstance(e_, tuple) and e_[0] == "proj" and e_[2] == ".0" and ex.is_call(e_[1], r"EdwardsPoint::compress$") and ex.is_arg(ex.call_args(e_[1])[0], 1)
         (R.ok if good else R.viol)("C17.to_bytes", I("GroupEncoding for EdwardsPoint::to_bytes"), "compress().to_bytes()" if good else "to_bytes is not compress().to_bytes()", *(() if good else (fv.loc(),)))
     f = method(EP, r"CofactorGroup$", "clear_cofactor")
     if f:
